@@ -380,6 +380,14 @@ def pinned_cases():
             out.append({"tree": t7, "cwd": [], "tags": ["pinned:prefix-named-link-target"],
                         "args": {"artifacts": arts, "exclude_patterns": None, "base_path": None,
                                  "follow": fl, "normalize": False, "lstrip": None}})
+    # line endings that straddle a 64 KiB / 128 KiB block boundary (normalisation is a function of the whole content)
+    big = lambda n, tail: ["f", "a" * n + tail]
+    t8 = d(("crlf_at_64k", big(65535, "\r\nb")), ("cr_at_64k", big(65535, "\rb")), ("crlf_in_64k", big(65534, "\r\nb")),
+           ("crlf_at_128k", big(131071, "\r\nq\r")), ("lf_at_64k", big(65535, "\nb")))
+    for nz in (True, False):
+        out.append({"tree": t8, "cwd": [], "tags": ["pinned:block-boundary-line-endings"],
+                    "args": {"artifacts": ["."], "exclude_patterns": None, "base_path": None,
+                             "follow": False, "normalize": nz, "lstrip": None}})
     # ostree + file + dir merged
     h = "ab" + "c" * 62
     t4 = d(("refs", d(("heads", d(("main", f(h + "\n")))))), ("objects", d(("ab", d(("c" * 62 + ".commit", f("blob")))))),
@@ -607,6 +615,38 @@ def stats(recs):
     return st
 
 
+def unreadable_files(ctx):
+    """a regular file that cannot be read (here: a link to /proc/self/mem, whose read fails) below a recorded directory:
+    the recording fails; it never returns a result from which that file is silently missing.  -> (cases, problems)"""
+    import shutil
+    import in_toto.runlib as rl
+    wd = os.path.join(ctx.work, "c10unreadable")
+    shutil.rmtree(wd, ignore_errors=True)
+    os.makedirs(os.path.join(wd, "sub"))
+    open(os.path.join(wd, "a"), "w").write("a")
+    open(os.path.join(wd, "sub", "b"), "w").write("b")
+    target = "/proc/self/mem"
+    if not os.path.exists(target):
+        return 0, []
+    os.symlink(target, os.path.join(wd, "sub", "locked"))
+    problems, n = [], 0
+    home = os.getcwd()
+    os.chdir(wd)
+    try:
+        for arts in (["."], ["sub"], ["a", "sub"], ["dir:sub"], ["sub/locked"]):
+            for follow in (False, True):
+                n += 1
+                try:
+                    r = rl.record_artifacts_as_dict(list(arts), follow_symlink_dirs=follow)
+                    problems.append("record_artifacts_as_dict(%r) returned %r although sub/locked cannot be read: the file is "
+                                    "silently dropped" % (arts, sorted(r)))
+                except Exception:  # noqa   (any loud failure is fine)
+                    pass
+    finally:
+        os.chdir(home)
+    return n, problems
+
+
 def resolver_reuse(ctx):
     """one configured resolver object asked twice, the files edited in between: every answer is the SHA-256 of the
     content AT THAT MOMENT (the public in_toto.resolver API; record_artifacts_as_dict builds fresh objects).
@@ -664,6 +704,9 @@ def run(ctx):
         ties2.run_flag(ctx, "--mangle", "Fun10.v", "Tie/C10.v")
     else:
         ctx.notes.append("Props/C10.v pending")
+    ur_n, ur_bad = unreadable_files(ctx)
+    for pr in ur_bad[:3]:
+        ctx.violation("unreadable file: " + pr, {"kind": "unreadable_files", "what": pr})
     reuse_n, reuse_bad = resolver_reuse(ctx)
     for pr in reuse_bad[:3]:
         ctx.violation("resolver object asked again after an edit: " + pr, {"kind": "resolver_reuse", "what": pr})
@@ -746,8 +789,8 @@ def run(ctx):
 
 def replay(ctx, obj):
     rp = obj["replay"]
-    if rp.get("kind") == "resolver_reuse":
-        _, bad = resolver_reuse(ctx)
+    if rp.get("kind") in ("resolver_reuse", "unreadable_files"):
+        _, bad = resolver_reuse(ctx) if rp["kind"] == "resolver_reuse" else unreadable_files(ctx)
         for pr in bad:
             print("  -> " + pr)
         if bad:
